@@ -129,6 +129,12 @@ func (g *refGen) authenSess(scope string, flags uint8) SessScript {
 		s := SessASCII(g.nextSid(), flags, user, pw, true, -1)
 		extra := *s.Pkts[0]
 		extra.Seq = 3
+		if r.Chance(60) {
+			// a START-shaped packet at the password step whose data is the password (and
+			// whose user may be anybody): still out of place, never a login
+			eb := startBody(1, PickOf(r, uint8(1), 2), 1, PickOf(r, user, "nobody"+r.Alnum(2), ""), "tty0", "192.0.2.7", pw)
+			extra.Body = eb
+		}
 		s.Pkts = []*PktSpec{s.Pkts[0], &extra}
 		s.Tag = "start-mid-exchange"
 		return s
@@ -150,6 +156,11 @@ func (g *refGen) authenSess(scope string, flags uint8) SessScript {
 			}
 		}
 		s.Tag = "ascii-boundary"
+		return s
+	case c == 19 && r.Chance(40): // a user name as long as the CONTINUE's 16-bit field allows (nobody by that name)
+		long := "x" + r.Alnum(PickOf(r, 300, 4000, 65000, 65505, 65510, 65520, 65530))
+		s := SessASCII(g.nextSid(), flags, long, pw, false, -1)
+		s.Tag = "ascii-long-user"
 		return s
 	case c == 18: // a password with an octet above 0x7f (the CONTINUE is hand-encoded by the peer)
 		return SessASCII(g.nextSid(), flags, user, pw+"\xc3\xa4", r.Bool(), -1)
@@ -335,7 +346,7 @@ func genRef(r *Rand, p *Plan, tier string, focus string) {
 			}
 			scripts = append(scripts, s)
 		}
-		if focus == "C19" && !wrongKey && len(scripts) >= 2 && r.Chance(25) {
+		if (focus == "C19" && !wrongKey && len(scripts) >= 2 && r.Chance(25)) || (focus == "C07" && !wrongKey && len(scripts) >= 2 && r.Chance(8)) {
 			// a connection that starts out right (also with the single-connect flag, also in
 			// the clear) and later carries a packet obfuscated with another key
 			k := 1 + r.Intn(len(scripts)-1)
